@@ -37,7 +37,7 @@ type codec struct {
 }
 
 func (c *codec) rule() {
-	ev.Rule(c.name, c.what+"; values drawn inside the ABI range (boundary-biased lengths and integers); oracle (i) decode(encode(v)) == v through bytes.Buffer, bytes.Reader and iotest.OneByteReader with exactly len(encoding) bytes consumed, (ii) encode(v) == harness reference encoding written from the TCG PFP tables, (iv) for byte strings near a valid encoding (truncated at a field boundary or anywhere, extended, size/count/alg fields changed by small amounts, single byte set; sizes capped at 2^16 because allocation behaviour is C07's): accepted => re-encoding equals the consumed bytes up to SP800-155 zero padding, and all three readers give the same verdict and value; non-trivial = value has a field at a range boundary or the byte string is an edit of a valid encoding; distinct = (edit class, field, verdict)")
+	ev.Rule(c.name, c.what+"; values drawn inside the ABI range (boundary-biased lengths and integers); oracle (i) decode(encode(v)) == v through bytes.Buffer, bytes.Reader and iotest.OneByteReader with exactly len(encoding) bytes consumed, (ii) encode(v) == harness reference encoding written from the TCG PFP tables, (iv) for byte strings near a valid encoding (truncated at a field boundary or anywhere, extended, size/count/alg fields changed by small amounts, single byte set; sizes capped at 2^15 because allocation behaviour is C07's): accepted => re-encoding equals the consumed bytes up to SP800-155 zero padding, and all three readers give the same verdict and value; non-trivial = value has a field at a range boundary or the byte string is an edit of a valid encoding; distinct = (edit class, field, verdict)")
 }
 
 type decoded struct {
@@ -134,8 +134,14 @@ func (c *codec) checkBytes(t ev.TB, b []byte) (string, bool) {
 			switch {
 			case c.zeroKey != "" && len(re) > len(consumed):
 				key = c.zeroKey
-			case c.whole && len(re) < len(b) && bytes.Equal(re, b[:len(re)]):
-				key = keyLogTruncated
+			case c.whole:
+				// is re the encoding of a proper prefix of b that ends at an event boundary? then
+				// the bytes after it (a partial event) were dropped
+				for _, o := range walk(c.frame, b).ends {
+					if o < len(b) && equalUpToSPPadding(c.frame, b[:o], re) {
+						key = keyLogTruncated
+					}
+				}
 			}
 			ev.Violation(t, key, "%s: byte string %s (%d bytes, %d consumed) is accepted as %+v, which encodes to %s (%d bytes): the input was not a complete encoding but was silently completed/cut", c.name, hx(b), len(b), d0.consumed, d0.m, hx(re), len(re))
 			return "", false
@@ -440,15 +446,15 @@ func logCodec() *codec {
 	}
 }
 
-func TestElCStr(t *testing.T)          { runCodec(t, cstrCodec(), ev.Scale(800, 10000)) }
-func TestElU32Array(t *testing.T)      { runCodec(t, arrCodec(), ev.Scale(800, 10000)) }
-func TestElEfiGUID(t *testing.T)       { runCodec(t, guidCodec(), ev.Scale(400, 5000)) }
-func TestElTaggedDigest(t *testing.T)  { runCodec(t, digestCodec(), ev.Scale(600, 8000)) }
-func TestElDigests(t *testing.T)       { runCodec(t, digestsCodec(), ev.Scale(800, 10000)) }
-func TestElEventData(t *testing.T)     { runCodec(t, dataCodec(), ev.Scale(800, 10000)) }
-func TestElPCClientEvent(t *testing.T) { runCodec(t, hdrCodec(), ev.Scale(800, 10000)) }
-func TestElPCREvent2(t *testing.T)     { runCodec(t, ev2Codec(), ev.Scale(800, 10000)) }
-func TestElLog(t *testing.T)           { runCodec(t, logCodec(), ev.Scale(800, 10000)) }
+func TestElCStr(t *testing.T)          { runCodec(t, cstrCodec(), ev.Scale(2000, 12000)) }
+func TestElU32Array(t *testing.T)      { runCodec(t, arrCodec(), ev.Scale(2000, 12000)) }
+func TestElEfiGUID(t *testing.T)       { runCodec(t, guidCodec(), ev.Scale(1000, 6000)) }
+func TestElTaggedDigest(t *testing.T)  { runCodec(t, digestCodec(), ev.Scale(1500, 8000)) }
+func TestElDigests(t *testing.T)       { runCodec(t, digestsCodec(), ev.Scale(2000, 12000)) }
+func TestElEventData(t *testing.T)     { runCodec(t, dataCodec(), ev.Scale(2000, 12000)) }
+func TestElPCClientEvent(t *testing.T) { runCodec(t, hdrCodec(), ev.Scale(2000, 12000)) }
+func TestElPCREvent2(t *testing.T)     { runCodec(t, ev2Codec(), ev.Scale(2000, 12000)) }
+func TestElLog(t *testing.T)           { runCodec(t, logCodec(), ev.Scale(2000, 12000)) }
 
 // ---------------------------------------------------------------------------------------------
 // SP800-155 Event3 (decoded from a byte slice, not a reader)
@@ -466,6 +472,10 @@ func checkSPBytes(t ev.TB, body []byte) (string, bool) {
 	}
 	if err != nil {
 		return "refused", true
+	}
+	if need := spBodyLen(spFromPkg(&v)); need > len(body) {
+		ev.Violation(t, keySizedShortRead, "SP800-155 event body %s (%d bytes) is accepted although a size-prefixed field claims more bytes than remain; the decoded value needs %d bytes (missing bytes were filled with zeros)", hx(body), len(body), need)
+		return "", false
 	}
 	var re []byte
 	err, pan = call(func() (e error) { re, e = v.MarshalToBytes(); return })
@@ -491,7 +501,7 @@ func checkSPBytes(t ev.TB, body []byte) (string, bool) {
 func TestElSP800155(t *testing.T) {
 	const name = "el/sp800155"
 	ev.Rule(name, "SP800-155 Event3 values (strings of length {0,1,253,254,0..12} incl. embedded NULs, locators of 0/1/0..24/255..300 bytes, integers boundary-biased); oracle: MarshalToBytes == signature + harness PFP layout; UnmarshalFromBytes(body) == v; body + 1..9 zero bytes == v (documented HOB padding); body + padding with one non-zero byte refused; byte strings: truncate at every field boundary and anywhere, change each size field, set a byte => accepted implies body == encode(decode(body)) followed only by zeros (a size-prefixed field that claims more than remains must be refused); out of range: a string of 255..300 bytes or a total above MaxGUIDHOBDataSize refused by MarshalToBytes; non-trivial = boundary value or edited string; distinct = (edit, field, verdict)")
-	checks(ev.Scale(1500, 15000))
+	checks(ev.Scale(4000, 20000))
 	rapid.Check(t, func(t *rapid.T) {
 		sp, boundary := genSP(t)
 		e := &renc{}
@@ -608,7 +618,7 @@ func TestElLogTruncation(t *testing.T) {
 	const name = "el/log-truncation"
 	ev.Rule(name, "generated logs (header + 1..4 events, all event-data kinds, 0..3 digests) cut at EVERY length k in [0,len]; oracle: k at an event boundary => accepted and equal to the model's first events (through all three readers); any other k => refused: a cut at a field boundary inside the last event that is accepted with the event dropped is the truncated-log violation; verdicts must not depend on the reader; all cases non-trivial; distinct = (cut class, field after the cut, verdict)")
 	c := logCodec()
-	checks(ev.Scale(60, 600))
+	checks(ev.Scale(150, 800))
 	rapid.Check(t, func(t *rapid.T) {
 		l := genLog(t, 4)
 		if len(l.Evs) == 0 {
